@@ -147,7 +147,8 @@ theorem proof_checks_in_order (fixed : Bool) (s : State) (m : MsgProof) (e : Pro
         (e.merkle == .replay, Code.replayAttack),
         (e.merkle == .invalid, Code.invalidMerkleVerify),
         (!e.appFound, Code.appNotFound),
-        (e.leafErr.isSome, e.leafErr.getD Code.internal) ] := by
+        (e.leafErr.isSome, e.leafErr.getD Code.internal),
+        (m.leaf == .challenge && !fixed, Code.invalidProofs) ] := by
   unfold handleProof
   cases hg : Claims.get s.claims m.key with
   | none => simp [firstFailure]
@@ -180,7 +181,9 @@ theorem proof_checks_in_order (fixed : Bool) (s : State) (m : MsgProof) (e : Pro
     | some code => simp
     | none =>
     unfold executeProof
-    cases m.leaf <;> simp
+    cases m.leaf with
+    | relay => simp
+    | challenge => cases fixed <;> simp
 
 /-- A relay reward is minted only by a proof transaction that is well-formed and authenticated, whose
 key (signer, leaf session header, evidence type) has a STORED claim, with the right number of
@@ -247,6 +250,23 @@ theorem proof_error_effects (fixed : Bool) (s : State) (m : MsgProof) (e : Proof
 example : (deliverProof false { s5 with claims := [(kRelay, cl)] } ⟨kRelay, .relay⟩ { envP with merkle := .replay }).state.supply
     = 1000 - 15000 := by decide
 
+/-- As coded a challenge-proof leaf is never executed: after passing every check the handler
+returns `InvalidProofs` and changes nothing (the type assertion in `ExecuteProof` is made on the
+undereferenced leaf, a pointer for every decoded transaction). -/
+theorem challenge_leaf_never_executes (s : State) (m : MsgProof) (e : ProofEnv) (h : m.leaf = .challenge) :
+    (deliverProof false s m e).err ≠ none ∧
+    ((deliverProof false s m e).err ≠ some Code.replayAttack →
+      (deliverProof false s m e).state = s ∧ (deliverProof false s m e).events = []) := by
+  rcases deliverProof_cases false s m e with ⟨h1, h2, h3⟩ | ⟨c, _, _, _, _, _, _, _, _, _, hr⟩
+  · exact ⟨h3, fun _ => ⟨h1, h2⟩⟩
+  · rcases hr with ⟨_, he, _, _⟩ | ⟨_, _, _, _, ⟨hl, _, _⟩ | ⟨_, hf, _⟩⟩
+    · rw [he]; exact ⟨by simp, fun hne => absurd rfl hne⟩
+    · rw [h] at hl; cases hl
+    · cases hf
+
+example : (deliverProof false { s5 with claims := [(kChal, cl)] } ⟨kChal, .challenge⟩ envP).err = some Code.invalidProofs := by
+  decide
+
 /-! ## At most once -/
 
 /-- The transition that pays deletes the claim it paid for — provided the leaf type matches the
@@ -260,7 +280,7 @@ theorem mint_deletes_claim_partial (fixed : Bool) (s : State) (m : MsgProof) (e 
   have hdk := deleteKey_typed fixed m hty
   rcases deliverProof_cases fixed s m e with ⟨_, h2, _⟩ | ⟨_, _, _, _, _, _, _, _, _, _, hr⟩
   · rw [h2] at h; simp at h
-  · rcases hr with ⟨_, _, h1, _⟩ | ⟨_, _, _, _, ⟨_, h1, _⟩ | ⟨_, h1, _⟩⟩ <;> rw [h1] <;>
+  · rcases hr with ⟨_, _, h1, _⟩ | ⟨_, _, _, _, ⟨_, h1, _⟩ | ⟨_, _, h1, _⟩⟩ <;> rw [h1] <;>
       simp only [hdk] <;> exact get_del_self _ _
 
 /-- As coded the statement is false: a claim filed with evidence type 2 (challenge) over a tree of
@@ -282,7 +302,8 @@ theorem mistyped_proof_deletes_other_claim :
 
 /-- Trace level, all histories: per claim key the number of reward payments never exceeds the number
 of times a claim was stored under that key (plus one if the initial state already held one) —
-for histories whose proofs are typed, or for the repaired handler. -/
+for histories in which relay-proof leaves are only presented for evidence type 1 (`WellTyped`),
+or for the repaired handler. -/
 theorem reward_at_most_once_per_claim_partial (fixed : Bool) (s : State) (ops : List Op) (k : ClaimKey)
     (hty : fixed = true ∨ WellTyped ops) :
     mints k (run fixed s ops).2 ≤ accepts k (run fixed s ops).2 + live s.claims k := by
@@ -304,7 +325,7 @@ theorem reward_at_most_once_per_claim_fails :
 example : WellTyped [.claim (mC kRelay) envC, .begin, .proof ⟨kRelay, .relay⟩ envP, .proof ⟨kRelay, .relay⟩ envP] := by
   intro op hop
   simp at hop
-  rcases hop with rfl | rfl | rfl | rfl <;> simp [Op.typed, LeafKind.et, kRelay]
+  rcases hop with rfl | rfl | rfl | rfl <;> simp [Op.typed, kRelay]
 example : mints kRelay (run false s5 [.claim (mC kRelay) envC, .begin, .proof ⟨kRelay, .relay⟩ envP,
     .proof ⟨kRelay, .relay⟩ envP]).2 = 1 := by decide
 
